@@ -341,3 +341,36 @@ def declare_c21(E):
                        "implies(ghost('moves') > old(ghost('moves')), ghost('moved_with_lock_held'))",
                },
                returns="bool", raises={})
+
+
+# ---------------------------------------------------------------------------------------------------------- C11
+def declare_c11(E):
+    """user messages are handed to the transport outside the channel lock: _send_user_message may block for the whole
+    key re-exchange, and the transport thread needs the channel lock in its handlers to get through that exchange"""
+    declare_c22(E)
+    declare_recv(E)
+    T = "paramiko.transport.Transport."
+    c = E.contracts[T + "_send_user_message"]
+    c["requires"] = {"no_channel_lock_held_while_waiting_for_the_transport": "not any_lock_held()"}
+    for name in ("close", "_request_failed"):
+        E.contract(C + name, params={"m": "obj:Message"} if name == "_request_failed" else {}, returns="none",
+                   raises={"EOFError": "True", "OSError": "True", "SSHException": "True"})
+    E.contract(C + "shutdown", params={"how": "int"}, returns="none",
+               raises={"EOFError": "True", "OSError": "True", "SSHException": "True"})
+    E.contract(C + "_feed_extended", params={"m": "obj:Message"},
+               requires={"well_formed": "0 <= m.packet.tell() and len(m.packet.getvalue()) - m.packet.tell() >= 8 and "
+                                        "unpack32(m.packet.getvalue()[m.packet.tell() + 4:m.packet.tell() + 8]) <= len(m.packet.getvalue()) - m.packet.tell() - 8"},
+               returns="none", raises={"EOFError": "True", "OSError": "True", "SSHException": "True", "struct.error": "True"})
+    E.contract("paramiko.buffered_pipe.BufferedPipe.feed", params={"data": "bytes"}, returns="none", modifies=[], raises={})
+    for name in ("recv", "recv_stderr"):
+        # the window-accounting clauses of these two are C19's; here only the call-site precondition is of interest
+        E.contracts[C + name] = dict(E.contracts[C + name], ensures={},
+                                     raises={"TimeoutError": "True", "OSError": "True", "EOFError": "True", "SSHException": "True",
+                                             "struct.error": "True"})
+    for mon in E.monitors.values():
+        # shutdown(0|2) sets eof_received without the lock ("feign read shutdown"): a benign race, irrelevant here
+        mon.unlocked[C + "shutdown"] = "flag write outside the lock in the real code; not part of this property"
+    # _send's own C22 clause about the lock is the opposite requirement (a known finding there); here only the call-site
+    # precondition matters
+    c = E.contracts[C + "_send"]
+    c["ensures"] = {k: v for k, v in c["ensures"].items() if k != "data_message_handed_to_the_transport_before_the_lock_is_released"}
